@@ -20,7 +20,7 @@ ENGINE = "E1 virtual-time asyncio loop + Hypothesis"
 TECHNIQUE = "property-based testing on a virtual-time simulator: generated service-time/overhead/outcome scripts, reference timing definitions as oracle"
 RULE = (
     "Generated: one iteration-based task (1 in 6: time-based with warm-up and ramp-up, global client index > 0), 1-4 clients, 1-6 request scripts (client overhead before/after, 1-3 wire requests with "
-    "gaps, service times 1/1024..12.5 s, outcome ok / success:false / ApiError 4xx,5xx / ConnectionTimeout under on-error=continue, "
+    "gaps - in a quarter of the scripts each in a nested request context of its own, as a composite runs its sub-requests -, service times 1/1024..12.5 s, outcome ok / success:false / ApiError 4xx,5xx / ConnectionTimeout under on-error=continue, "
     "return shape tuple/dict/None, weights, units), target throughput number / '<n> unit/s' / target-interval / none, deterministic or "
     "poisson schedule, per-process perf_counter offset; in a class of cases the shared completion event is set from outside at a drawn "
     "instant while requests are in flight. Non-trivial = (throttled and at least one request started behind its schedule) "
@@ -32,7 +32,8 @@ ASSUMPTIONS = [
     "instants are dyadic rationals; comparisons use 1e-9 absolute tolerance",
 ]
 BUDGET = {"quick": 4000, "thorough": 25000}
-REQUIRED_CLASSES = {"behind-schedule": 100, "error-outcome": 100, "multi-client": 300, "completed-from-outside-with-request-in-flight": 100, "ramped-up-client": 150}
+REQUIRED_CLASSES = {"behind-schedule": 100, "error-outcome": 100, "multi-client": 300, "completed-from-outside-with-request-in-flight": 100, "ramped-up-client": 150,
+                    "failing-sub-request-in-nested-context": 100}
 TOL = 1e-9
 
 
@@ -147,6 +148,8 @@ def run_case(case, obs):
         obs.cls("error-outcome")
     if c >= 2:
         obs.cls("multi-client")
+    if any(x.get("nested") and x["outcome"] not in ("ok", "fail-dict") for x in case["requests"]) and errors_seen:
+        obs.cls("failing-sub-request-in-nested-context")
     if case.get("ramp_up") and (goff + c - 1) > 0 and r["samples"]:
         obs.cls("ramped-up-client")
     if case.get("complete_at") is not None and any(q["t_enter"] < case["complete_at"] < q.get("t_exit", -1) for q in r["requests"]):
